@@ -1,5 +1,5 @@
 (* Property C15 - npy output conforms to NPY 1.0; reader of the numpy dtypes. *)
-From Sfs Require Import Index Npy Text NpyP TextP.
+From Sfs Require Import Index Npy Text NpyP TextP NpySpellP.
 Close Scope string_scope. Open Scope N_scope.
 
 (* every shape: magic, version 1.0, little-endian u16 header length, dict, space padding, terminating newline; data starts at a multiple of 64 *)
@@ -31,6 +31,49 @@ Theorem C15_dict_parses_to_f8_C_order_shape : forall sh pad,
   parse_dict (fmt_dict sh ++ pad) = Some [EDescr Little F8; EFortran false; EShape sh].
 Proof. exact (@parse_dict_fmt_dict). Qed.
 Print Assumptions C15_dict_parses_to_f8_C_order_shape.
+
+(* reader: the descr entry in either quote style, any spacing around ':', byte order '<' '|' '>' and all ten dtypes *)
+Theorem C15_reader_accepts_any_descr_spelling : forall q q' ec e t s1 s2 r,
+  quote_ok q -> quote_ok q' -> endian_char e ec -> hspace s1 -> hspace s2 ->
+  parse_entry (descr_entry q q' ec t s1 s2 ++ r) = Some (EDescr e t, r).
+Proof. exact (@parse_descr_entry). Qed.
+Print Assumptions C15_reader_accepts_any_descr_spelling.
+
+(* reader: the fortran_order entry likewise *)
+Theorem C15_reader_accepts_any_fortran_spelling : forall q f s1 s2 r,
+  quote_ok q -> hspace s1 -> hspace s2 ->
+  parse_entry (fortran_entry q f s1 s2 ++ r) = Some (EFortran f, r).
+Proof. exact (@parse_fortran_entry). Qed.
+Print Assumptions C15_reader_accepts_any_fortran_spelling.
+
+(* reader: the shape tuple with any spacing, with or without trailing comma (numpy writes (n,) and (a, b)) *)
+Theorem C15_reader_accepts_any_shape_spelling : forall q sh s1 s2 l rr trailing r,
+  quote_ok q -> hspace s1 -> hspace s2 -> hspace l -> hspace rr ->
+  sh <> [] -> Forall (fun n => n <= u64_max) sh ->
+  (length sh = 1%nat -> trailing = true \/ True) ->
+  parse_entry (shape_entry q sh s1 s2 l rr trailing ++ r) = Some (EShape sh, r).
+Proof. exact (@parse_shape_entry). Qed.
+Print Assumptions C15_reader_accepts_any_shape_spelling.
+
+(* reader: the three entries in any order, any spacing after '{' and before '}', optional trailing comma, anything after '}' *)
+Theorem C15_reader_accepts_any_key_order : forall a sepa sepb tail b rest e1 e2 e3 x1 x2 x3,
+  hspace a -> hspace b -> sep_ok sepa -> sep_ok sepb -> tail_ok tail ->
+  (forall r, parse_entry (e1 ++ r) = Some (x1, r)) -> (forall r, parse_entry (e2 ++ r) = Some (x2, r)) ->
+  (forall r, parse_entry (e3 ++ r) = Some (x3, r)) ->
+  (match e1 with c :: _ => c <> 32 /\ c <> 9 | [] => False end) ->
+  (match e2 with c :: _ => c <> 32 /\ c <> 9 | [] => False end) ->
+  (match e3 with c :: _ => c <> 32 /\ c <> 9 | [] => False end) ->
+  parse_dict (dict_text a e1 sepa e2 sepb e3 tail b rest) = Some [x1; x2; x3].
+Proof. exact (@parse_dict_any_order). Qed.
+Print Assumptions C15_reader_accepts_any_key_order.
+
+(* ... all six orders give the same header record *)
+Theorem C15_reader_header_record_order_free : forall e t f sh,
+  let d := EDescr e t in let fo := EFortran f in let s := EShape sh in
+  forall l, In l [[d; fo; s]; [d; s; fo]; [fo; d; s]; [fo; s; d]; [s; d; fo]; [s; fo; d]] ->
+  dict_of_entries l = Some {| h_endian := e; h_type := t; h_fortran := f; h_shape := sh |}.
+Proof. exact (@dict_of_entries_perm). Qed.
+Print Assumptions C15_reader_header_record_order_free.
 
 (* little-endian words decode to themselves *)
 Theorem C15_le_words : forall k w,
